@@ -316,6 +316,13 @@ class Engine:
         qf = [a for a in self.assumptions if not _has_quant(a)]
         ob = Obligation(name, kind, qf + list(hyps), goal, getattr(node, 'lineno', None), '')
         ob.path = list(self.trace[:self.pos])
+        if any(_alpha_eq(h, goal) for h in hyps):
+            # the goal is one of the hypotheses up to the names of its bound variables
+            ob.status, ob.backend = 'unsat', 'simplify'
+            self._record(ob)
+            if assume:
+                self.assume(goal)
+            return
         if self._cached(ob):
             self._record(ob)
             if assume:
@@ -536,6 +543,34 @@ class Engine:
         A = self.arr_term(a)
         f = self.seq_fn('seq_of_' + a.ty, A.sort(), z3.IntSort(), SeqSort)
         return f(A, n)
+
+    def _seq_neg_axioms(self):
+        """the sequence algebra's negation: slicing and differencing commute with it, comparison with 0 flips
+        (exact for IEEE floats too: negation is exact and (-a) - (-b) == -(a - b)); assumed meaning of the symbols"""
+        if self.st.ghost.get('seq_neg_axioms'):
+            return
+        from .values import SeqSort
+        self.st.ghost['seq_neg_axioms'] = True
+        x = z3.Const('sq_x', SeqSort)
+        a, b = z3.Ints('sq_a sq_b')
+        neg = self.seq_fn('seq_neg', SeqSort, SeqSort)
+        sl = self.seq_fn('seq_slice', SeqSort, z3.IntSort(), z3.IntSort(), SeqSort)
+        slt = self.seq_fn('seq_slice_to', SeqSort, z3.IntSort(), SeqSort)
+        slf = self.seq_fn('seq_slice_from', SeqSort, z3.IntSort(), SeqSort)
+        df = self.seq_fn('seq_diff', SeqSort, SeqSort)
+        ax = [z3.ForAll([x, a, b], sl(neg(x), a, b) == neg(sl(x, a, b)), patterns=[sl(neg(x), a, b)]),
+              z3.ForAll([x, a], slt(neg(x), a) == neg(slt(x, a)), patterns=[slt(neg(x), a)]),
+              z3.ForAll([x, a], slf(neg(x), a) == neg(slf(x, a)), patterns=[slf(neg(x), a)]),
+              z3.ForAll([x], df(neg(x)) == neg(df(x)), patterns=[df(neg(x))])]
+        for ty, zero in (('int', z3.IntVal(0)), ('real', z3.RealVal(0))):
+            lt = self.seq_fn('seq_cmp_Lt_' + ty, SeqSort, zero.sort(), SeqSort)
+            gt = self.seq_fn('seq_cmp_Gt_' + ty, SeqSort, zero.sort(), SeqSort)
+            ax.append(z3.ForAll([x], lt(neg(x), zero) == gt(x, zero), patterns=[lt(neg(x), zero)]))
+            ax.append(z3.ForAll([x], gt(neg(x), zero) == lt(x, zero), patterns=[gt(neg(x), zero)]))
+        for t in ax:
+            self.assumptions_quant(t)
+        self.st.ghost.setdefault('facts', {})['seq-neg'] = ax
+        self.stats.setdefault('definitions', []).append('sequence algebra: negation commutes with slice / diff, flips comparison with 0')
 
     def arr_term(self, a):
         """a z3 Array term for array value a: the closed array constant itself for a whole base array,
@@ -972,6 +1007,7 @@ class Engine:
         for clause in defs.get(anchor, []):
             t = self.spec_bool(clause, dict(self.st.env))
             self.assume(t)
+            self.st.ghost.setdefault('facts', {}).setdefault('define:' + '-'.join(map(str, anchor)), []).append(t)
             self.stats.setdefault('definitions', []).append('%s @%s: %s' % (self.fn_short, '-'.join(map(str, anchor)), clause[:200]))
         h = hooks.get(anchor)
         if h is None:
@@ -1186,6 +1222,7 @@ class Engine:
                     inner = self.seq(v)
                     self.set_seq(r, 'seq_neg', inner)
                     r.neg_of = inner
+                    self._seq_neg_axioms()
                 except Unsupported:
                     pass
             return r
@@ -1536,6 +1573,18 @@ class Engine:
         raise Unsupported('starred')
 
 
+def _alpha_eq(a, b):
+    try:
+        if a.eq(b):
+            return True
+        if z3.is_quantifier(a) and z3.is_quantifier(b) and a.is_forall() == b.is_forall() and a.num_vars() == b.num_vars():
+            if all(a.var_sort(k) == b.var_sort(k) for k in range(a.num_vars())):
+                return a.body().eq(b.body())
+    except Exception:
+        pass
+    return False
+
+
 def _has_quant(t):
     seen = set()
     stack = [t]
@@ -1657,7 +1706,7 @@ class Proof:
         earlier schemas) and the quantifier-free part of the path; then register it as a schema and add it to the path"""
         self.count += 1
         tag = '%s/proof@%s:%s' % (self.E.fn_short, '-'.join(str(a) for a in self.anchor), name)
-        fresh = [z3.Int(fresh_name(str(v))) for v in vars_]
+        fresh = [z3.Const(fresh_name(str(v)), v.sort()) for v in vars_]
         sub = list(zip(vars_, fresh))
         g = lambda t: z3.substitute(t, *sub)
         hyps = [g(h) for h in by] + [g(prem)]
@@ -1668,6 +1717,32 @@ class Proof:
         closed = z3.ForAll(vs, body, patterns=patterns) if patterns else z3.ForAll(vs, body)
         self.E.assumptions_quant(closed)
         self.E.st.ghost.setdefault('facts', {})[name] = closed
+
+    def range_ext(self, name, pointwise_fact, app_a, app_b, what):
+        """range-extensionality of an uninterpreted reduction F(array, n, ...) that by its meaning reads only the entries
+        below n: once  forall k in [0, n): A[k] == B[k]  is established (the named fact), F(A, n, ...) == F(B, n, ...).
+        A definitional property of the reduction symbol (listed with the definitional clauses), not a fact about code."""
+        f = self.E.st.ghost.get('facts', {}).get(pointwise_fact)
+        if f is None:
+            raise Unsupported('range_ext: no fact %s' % pointwise_fact)
+        t = z3.Implies(f, app_a == app_b)
+        self.E.assumptions_quant(t)
+        self.E.stats.setdefault('definitions', []).append('%s: range-extensionality of %s' % (self.E.fn_short, what))
+        self.E.st.ghost.setdefault('facts', {})[name] = [f, t]
+
+    def pick(self, fact, needle, nth=0):
+        """the nth formula of a registered fact list whose text mentions `needle`"""
+        v = self.E.st.ghost.get('facts', {}).get(fact) or []
+        hits = [x for x in (v if isinstance(v, list) else [v]) if needle in x.sexpr()]
+        if len(hits) <= nth:
+            raise Unsupported('pick: %s has no formula mentioning %s' % (fact, needle))
+        return hits[nth]
+
+    def inst_formula(self, f, *terms):
+        if not (z3.is_quantifier(f) and f.is_forall()):
+            return f
+        ts = [t if isinstance(t, z3.ExprRef) else z3.IntVal(t) for t in terms]
+        return z3.substitute_vars(f.body(), *reversed(ts))
 
     def ground(self, name, concl, by=()):
         """a ground fact from ground instances"""
